@@ -6,7 +6,7 @@ import copy
 import itertools
 
 from ..core import AnalysisError, call_name, kwarg, norm
-from ..util import assigned_targets, parent_map
+from ..util import assigned_targets, parent_map, flatten_boolop
 
 EXPLANATION = """
 The verdict of sympy's function_range on a concrete formula is not decided. Decided statically -- the
@@ -109,19 +109,37 @@ def _f2(ctx):
                         rel = nm if norm(v.operand.comparators[0]) == "0" else _fl.get(nm, nm)  # as seen with f on the left
             if rel:
                 break
-        qs = None
+        # quantifiers: local aliases of any/all are resolved after specialisation (`check = any`, `(a, b) = (any, all)`)
+        alias = {}
         for s in ast.walk(fn):
-            if isinstance(s, ast.Assign) and norm(s.targets[0]) == "(min_check, max_check)" and isinstance(s.value, ast.Tuple):
-                qs = tuple(norm(e) for e in s.value.elts)
+            if isinstance(s, ast.Assign) and len(s.targets) == 1:
+                t, v = s.targets[0], s.value
+                if isinstance(t, ast.Name) and isinstance(v, ast.Name):
+                    alias[t.id] = v.id
+                elif isinstance(t, ast.Tuple) and isinstance(v, ast.Tuple) and len(t.elts) == len(v.elts):
+                    for a, b in zip(t.elts, v.elts):
+                        if isinstance(a, ast.Name) and isinstance(b, ast.Name):
+                            alias[a.id] = b.id
+
+        def resolve(name):
+            seen = 0
+            while name in alias and seen < 5:
+                name = alias[name]
+                seen += 1
+            return name
         minq = maxq = None
         for s in ast.walk(fn):
-            if isinstance(s, ast.If) and norm(s.test) == "isinstance(f, sympy.Min)":
-                minq = norm(s.body[0].value.func)
-            if isinstance(s, ast.If) and norm(s.test) == "isinstance(f, sympy.Max)":
-                maxq = norm(s.body[0].value.func)
-        if qs:
-            minq = {"min_check": qs[0], "max_check": qs[1]}.get(minq, minq)
-            maxq = {"min_check": qs[0], "max_check": qs[1]}.get(maxq, maxq)
+            if not (isinstance(s, ast.If) and isinstance(s.test, ast.Call) and call_name(s.test) == "isinstance" and len(s.test.args) == 2 and norm(s.test.args[0]) == "f"):
+                continue
+            classes = [norm(e) for e in (s.test.args[1].elts if isinstance(s.test.args[1], ast.Tuple) else [s.test.args[1]])]
+            rets = [r for r in s.body if isinstance(r, ast.Return)]
+            if not rets or not isinstance(rets[-1].value, ast.Call) or not isinstance(rets[-1].value.func, ast.Name):
+                continue
+            q = resolve(rets[-1].value.func.id)
+            if any(c.split(".")[-1] == "Min" for c in classes) and minq is None:
+                minq = q
+            if any(c.split(".")[-1] == "Max" for c in classes) and maxq is None:
+                maxq = q
         end = None
         for c in [x for x in ast.walk(fn) if isinstance(x, ast.Call) and call_name(x) == "_compare_to_zero"]:
             if c.args and isinstance(c.args[0], ast.Attribute) and norm(c.args[0].value) == "f_range":
@@ -284,6 +302,175 @@ def _f6(ctx):
     ctx.check(ok, R, fi, rets[0], "the ceiling-free formula escapes the sign test", "sign test returns booleans only")
 
 
+def _f7(ctx):
+    R = "C09-F7"
+    ctx.doc(R, "corner shortcuts are strict: a definite verdict is taken from the value at a corner of the box only when that value is strictly positive / strictly negative (a corner value of 0 decides nothing)")
+    gl = ctx.func(MTS, "geq_leq_zero", R)
+    cfg = ctx.cfg(gl)
+    defs = {}
+    for st in gl.stmts():
+        for t, v, _ in assigned_targets(st):
+            if isinstance(t, ast.Name) and v is not None:
+                defs.setdefault(t.id, []).append(v)
+    corner = {k for k, vs in defs.items() if all(isinstance(v, ast.Call) and isinstance(v.func, ast.Attribute) and v.func.attr in ("subs", "xreplace", "evalf") for v in vs)}
+    ctx.require(len(corner) >= 2, R, f"corner values (f.subs(...)) in geq_leq_zero: {sorted(corner)}")
+    n = 0
+    for r in cfg.returns():
+        v = r.ast.value
+        if not (isinstance(v, ast.Attribute) and norm(v.value) == "ComparisonResult"):
+            continue
+        for h, lab in cfg.control_conditions(r):
+            if h.kind != "if" or lab != "true":
+                continue
+            for t in flatten_boolop(h.ast.test):
+                if not (isinstance(t, ast.Compare) and len(t.ops) == 1):
+                    continue
+                l, rr = t.left, t.comparators[0]
+                names = {x.id for x in ast.walk(t) if isinstance(x, ast.Name)}
+                if not (names & corner):
+                    continue
+                n += 1
+                # canonical orientation (K1): only < and <= occur
+                zero_left = isinstance(l, ast.Constant) and l.value == 0
+                zero_right = isinstance(rr, ast.Constant) and rr.value == 0
+                op = type(t.ops[0]).__name__
+                if v.attr == GEQ:
+                    ok = zero_left and op == "Lt"
+                    why = "at least zero"
+                elif v.attr == LEQ:
+                    ok = zero_right and op == "Lt"
+                    why = "at most zero"
+                else:
+                    ok = v.attr in (UNK,) or (op == "Eq")
+                    why = "that sign"
+                ctx.check(ok, R, gl, h.ast.test, f"`{norm(t)}` decides {v.attr}: a corner value that is exactly 0 says nothing about the rest of the box (e.g. 1 - a on [1, 8] is 0 at the corner and negative elsewhere), "
+                          f"so the formula is declared always {why} without proof", f"{v.attr} only from a strictly signed corner value (`{norm(t)}`)")
+    ctx.require(n >= 4, R, f"corner shortcuts found: {n}")
+    ctx.floor(R, 4)
+
+
+def _f8(ctx):
+    R = "C09-F8"
+    ctx.doc(R, "Min/Max connected-term fast path: at every comparison point the class answered for a decided comparison agrees with the orientation of the operands (swaps of (x, y) and of (Max, Min) are tracked through the unrolled loops)")
+    fi = ctx.func(MTS, "_is_connected_cached", R)
+    ps = fi.params()
+    ctx.require(len(ps) >= 3, R, f"parameters {ps}")
+    X, Y = ps[-2], ps[-1]
+    env = {X: "X0", Y: "Y0"}
+    points = []
+
+    class Stop(Exception):
+        pass
+
+    def cls_of(e):
+        t = norm(e)
+        if t.endswith("Max"):
+            return "Max"
+        if t.endswith("Min"):
+            return "Min"
+        if isinstance(e, ast.Name) and e.id in env:
+            return env[e.id]
+        if isinstance(e, ast.Constant):
+            return e.value
+        return None
+
+    def ev_test(e):
+        """True / False / None (= depends on a comparison outcome)"""
+        if isinstance(e, ast.Compare) and len(e.ops) == 1:
+            l, r = cls_of(e.left), cls_of(e.comparators[0])
+            if isinstance(e.left, ast.Name) and e.left.id in env and isinstance(e.comparators[0], ast.Constant):
+                l, r = env[e.left.id], e.comparators[0].value
+            if l is None or r is None:
+                return None
+            if isinstance(e.ops[0], (ast.Eq, ast.Is)):
+                return l == r if not isinstance(e.ops[0], ast.Is) else (l is r or l == r)
+            if isinstance(e.ops[0], (ast.NotEq, ast.IsNot)):
+                return not (l == r)
+        return None
+
+    pending = {}
+
+    def run(stmts):
+        for s in stmts:
+            if isinstance(s, ast.Assign) and len(s.targets) == 1:
+                t, v = s.targets[0], s.value
+                if isinstance(t, ast.Tuple) and isinstance(v, ast.Tuple) and len(t.elts) == len(v.elts) and all(isinstance(a, ast.Name) for a in t.elts):
+                    vals = [cls_of(b) for b in v.elts]
+                    for a, val in zip(t.elts, vals):
+                        env[a.id] = val
+                    continue
+                if isinstance(t, ast.Name):
+                    if isinstance(v, ast.IfExp) and isinstance(v.test, ast.Name) and v.test.id in pending:
+                        ge, at = pending[v.test.id]
+                        points.append((ge, cls_of(v.body), cls_of(v.orelse), s))
+                        continue
+                    c = v
+                    if isinstance(c, ast.IfExp):
+                        tv = ev_test(c.test)
+                        ctx.require(tv is not None, R, f"cannot decide `{norm(c.test)}` while unrolling")
+                        c = c.body if tv else c.orelse
+                    if isinstance(c, ast.Compare) and len(c.ops) == 1 and isinstance(c.ops[0], (ast.LtE, ast.GtE)) and isinstance(c.left, ast.Name) and isinstance(c.comparators[0], ast.Name) \
+                            and {c.left.id, c.comparators[0].id} <= set(env):
+                        a, b = env[c.left.id], env[c.comparators[0].id]
+                        ge = (a, b) if isinstance(c.ops[0], ast.GtE) else (b, a)  # ge[0] >= ge[1] when the comparison is true
+                        pending[t.id] = (ge, s)
+                        continue
+                    env[t.id] = cls_of(v)
+                    continue
+                ctx.require(False, R, f"statement `{norm(s)[:80]}` in the fast path")
+            elif isinstance(s, ast.For):
+                it = s.iter
+                if isinstance(it, ast.Constant) and isinstance(it.value, str):
+                    vals = list(it.value)
+                elif isinstance(it, ast.Call) and call_name(it) == "range" and len(it.args) == 1 and isinstance(it.args[0], ast.Constant):
+                    vals = list(range(it.args[0].value))
+                else:
+                    ctx.require(False, R, f"loop over `{norm(it)}`")
+                for val in vals:
+                    if isinstance(s.target, ast.Name):
+                        env[s.target.id] = val
+                    run(s.body)
+            elif isinstance(s, ast.Try):
+                run(s.body)
+            elif isinstance(s, ast.If):
+                names = {n.id for n in ast.walk(s.test) if isinstance(n, ast.Name)}
+                if names & set(pending):
+                    # the branch taken when the comparison is decided: record what it answers, then go on as if undecided
+                    decided = s.body if "is_Relational" in norm(s.test) and isinstance(s.test, ast.UnaryOp) else (s.orelse if "is_Relational" in norm(s.test) else None)
+                    ctx.require(decided is not None, R, f"branch on the comparison outcome `{norm(s.test)}`")
+                    for d in decided:
+                        if isinstance(d, ast.Assign):
+                            run([d])
+                    rest = s.orelse if decided is s.body else s.body
+                    run(rest)
+                    continue
+                tv = ev_test(s.test)
+                ctx.require(tv is not None, R, f"cannot decide `{norm(s.test)}` while unrolling")
+                run(s.body if tv else s.orelse)
+            elif isinstance(s, (ast.Break, ast.Continue, ast.Pass, ast.Expr)):
+                continue
+            elif isinstance(s, ast.Return):
+                continue
+            else:
+                ctx.require(False, R, f"statement `{norm(s)[:80]}` in the fast path")
+
+    # the part of the function that does the comparisons: the else-branch of `x == y`, or the whole body
+    body = fi.node.body
+    for s in fi.stmts():
+        if isinstance(s, ast.If) and norm(s.test) in (f"{X} == {Y}", f"{Y} == {X}"):
+            body = s.orelse
+    run(body)
+    ctx.require(len(points) >= 4, R, f"comparison points reached by unrolling: {len(points)}")
+    for i, (ge, when_true, when_false, st) in enumerate(points):
+        want_true = "Max" if ge == ("X0", "Y0") else "Min"  # x0 >= y0  <=> Max(x0, y0) is x0
+        want_false = "Min" if want_true == "Max" else "Max"
+        ok = when_true == want_true and when_false == want_false
+        ctx.check(ok, R, fi, st, f"comparison point #{i + 1} of the unrolled loops decides `{ge[0]} >= {ge[1]}` and answers {when_true} when it holds ({when_false} when it does not); "
+                  f"`{ge[0]} >= {ge[1]}` means {want_true}: Max/Min terms are then simplified to the wrong argument (e.g. Max(0, 1 - c) becomes 1 - c for c >= 1), and every verdict on the formula is about another formula",
+                  f"point #{i + 1}: `{ge[0]} >= {ge[1]}` true => {when_true}, false => {when_false}")
+    ctx.floor(R, 4)
+
+
 def check(ctx):
     _f1(ctx)
     _f2(ctx)
@@ -291,9 +478,13 @@ def check(ctx):
     _f4(ctx)
     _f5(ctx)
     _f6(ctx)
+    _f7(ctx)
+    _f8(ctx)
 
 
 VARIANTS = [
+    {"kind": "F", "name": "corner-shortcut-not-strict", "rule": "C09-F7", "edits": [(MTS, "        if min_f > 0:\n            return ComparisonResult.ALWAYS_GEQ_THAN_ZERO", "        if min_f >= 0:\n            return ComparisonResult.ALWAYS_GEQ_THAN_ZERO")]},
+    {"kind": "F", "name": "corner-shortcut-wrong-side", "rule": "C09-F7", "edits": [(MTS, "        if max_f < 0:\n            return ComparisonResult.ALWAYS_LEQ_THAN_ZERO", "        if max_f > 0:\n            return ComparisonResult.ALWAYS_LEQ_THAN_ZERO")]},
     {"kind": "F", "name": "handler-returns-false", "rule": "C09-F1", "edits": [(MTS, "    except (NotImplementedError, TypeError):\n        return True", "    except (NotImplementedError, TypeError):\n        return False")]},
     {"kind": "F", "name": "swap-any-all", "rule": "C09-F2", "edits": [(MTS, "    min_check, max_check = (any, all) if check_lt_zero else (all, any)", "    min_check, max_check = (all, any) if check_lt_zero else (any, all)")]},
     {"kind": "F", "name": "swap-interval-ends", "rule": "C09-F2", "edits": [(MTS, "            f_range.left if check_lt_zero else f_range.right,", "            f_range.right if check_lt_zero else f_range.left,")]},
